@@ -2,6 +2,8 @@ package props
 
 import (
 	"fmt"
+	"os"
+	"path/filepath"
 	"regexp"
 	"runtime"
 	"sort"
@@ -61,7 +63,17 @@ func c17Data(r *rng.R) *document.TemplateData {
 		}
 		return nil
 	}
-	d.SetList("rows", []interface{}{map[string]interface{}{"k": gen.Word(r, 1, 4), "on": r.Bool(), "members": nested()}, map[string]interface{}{"k": gen.Word(r, 1, 4), "on": r.Bool(), "members": nested()}})
+	rows := []interface{}{map[string]interface{}{"k": gen.Word(r, 1, 4), "on": r.Bool(), "members": nested()}, map[string]interface{}{"k": gen.Word(r, 1, 4), "on": r.Bool(), "members": nested()}}
+	// rows as they come out of a CSV reader or a form (all strings), a row that is no map at all
+	switch r.Intn(5) {
+	case 0:
+		rows = append(rows, map[string]string{"k": gen.Word(r, 1, 4), "on": "true"})
+	case 1:
+		rows = append([]interface{}{map[string]string{"k": gen.Word(r, 1, 4)}}, rows...)
+	case 2:
+		rows = append(rows, gen.Word(r, 1, 4), 7)
+	}
+	d.SetList("rows", rows)
 	// a picture of a random format for {{#image pic}} placeholders (unique bytes per data set)
 	im := gen.MakeImage([]string{"png", "jpeg", "gif"}[r.Intn(3)], 50000+r.Intn(1<<20), r.Range(2, 9), r.Range(2, 9))
 	d.SetImageFromData("pic", im.Data, nil)
@@ -342,6 +354,80 @@ func c17Sequential(c *core.Ctx, r *rng.R) *core.Result {
 			loaded[def.name] = l
 			l.result, _ = render(def.name, l.data, false)
 			recheck("LoadTemplateFromDocument", def.name)
+		case k >= 80 && k < 85: // the TemplateRenderer front end (file -> template -> render), with the same monitors
+			version++
+			base := c17BaseDoc(r.U64(), c.WorkDir)
+			path := filepath.Join(c.WorkDir, fmt.Sprintf("c17-renderer-%d.docx", c.Case))
+			if err := base.Save(path); err != nil {
+				break
+			}
+			data := c17Data(r)
+			tr := document.NewTemplateRenderer()
+			tr.SetLogging(false)
+			var err error
+			if cg := core.Catch(func() { _, err = tr.LoadTemplateFromFile("rt", path) }); cg != nil || err != nil {
+				os.Remove(path)
+				break
+			}
+			// what the plain engine makes of the same file and the same data, before the renderer has seen the data
+			engineRender := func() map[string]string {
+				e2 := document.NewTemplateEngine()
+				d0, oerr := document.Open(path)
+				if oerr != nil {
+					return nil
+				}
+				var d2 *document.Document
+				var rerr error
+				if cg := core.Catch(func() {
+					if _, rerr = e2.LoadTemplateFromDocument("rt", d0); rerr == nil {
+						d2, rerr = e2.RenderTemplateToDocument("rt", data)
+					}
+				}); cg != nil || rerr != nil || d2 == nil {
+					return nil
+				}
+				out, _ := renderOutcome(d2)
+				return out
+			}
+			before := engineRender()
+			beforeD := deep.Dump(data)
+			var r1, r2 map[string]string
+			run := func() map[string]string {
+				var d2 *document.Document
+				var rerr error
+				if cg := core.Catch(func() { d2, rerr = tr.RenderTemplate("rt", data) }); cg != nil || rerr != nil || d2 == nil {
+					return nil
+				}
+				out, _ := renderOutcome(d2)
+				return out
+			}
+			r1 = run()
+			log = append(log, "TemplateRenderer.RenderTemplate")
+			res.Count("renders_monitored", 1)
+			res.Count("renderer_front_end_renders", 1)
+			if deep.Dump(data) != beforeD {
+				res.Add("purity/renderer/data-modified-by-render", "TemplateRenderer.RenderTemplate changed the data", firstDiff(beforeD, deep.Dump(data)), note())
+			}
+			core.Catch(func() { tr.AnalyzeTemplate("rt") })
+			r2 = run()
+			if (r1 == nil) != (r2 == nil) {
+				res.Add("repeatability/renderer/second-render-differs-in-success", "first and second RenderTemplate disagree on success", note())
+			} else if r1 != nil {
+				if part, d := canonDiff(r1, r2); part != "" {
+					res.Add("repeatability/renderer/second-render-differs", fmt.Sprintf("two TemplateRenderer renders with the same data (AnalyzeTemplate in between) differ in part %s: %s", part, d), note())
+				}
+			}
+			after := engineRender()
+			if before != nil && after != nil {
+				if part, d := canonDiff(before, after); part != "" {
+					res.Add("independence/renderer/engine-render-of-same-data-changed", fmt.Sprintf("the plain engine renders the same file with the same data differently after TemplateRenderer.RenderTemplate saw that data: part %s: %s", part, d), note())
+				}
+			}
+			if before != nil && r1 != nil {
+				if part, d := canonDiff(before, r1); part != "" {
+					res.Add("independence/renderer/differs-from-engine", fmt.Sprintf("TemplateRenderer.RenderTemplate and TemplateEngine.RenderTemplateToDocument disagree on the same file and data: part %s: %s", part, d), note())
+				}
+			}
+			os.Remove(path)
 		case k < 85: // render with purity and repeatability monitors
 			if len(order) == 0 {
 				break
@@ -493,10 +579,18 @@ func c17Concurrent(c *core.Ctx, r *rng.R) *core.Result {
 	}
 	eng.LoadTemplateFromDocument("fdoc", base)
 	baseline := map[string]map[string]string{}
-	rend := func(name string) (map[string]string, string) {
+	var progress int64 // calls on the engine that returned
+	rendVia := func(name string, via bool) (map[string]string, string) {
 		var d *document.Document
 		var err error
-		if cg := core.Catch(func() { d, err = eng.RenderToDocument(name, data) }); cg != nil {
+		defer atomic.AddInt64(&progress, 1)
+		if cg := core.Catch(func() {
+			if via {
+				d, err = eng.RenderTemplateToDocument(name, data)
+			} else {
+				d, err = eng.RenderToDocument(name, data)
+			}
+		}); cg != nil {
 			return nil, "panic:" + cg.Msg
 		}
 		if err != nil || d == nil {
@@ -505,14 +599,17 @@ func c17Concurrent(c *core.Ctx, r *rng.R) *core.Result {
 		p, _ := renderOutcome(d)
 		return p, ""
 	}
-	for _, nm := range []string{"fbase", "fdoc"} {
+	rend := func(name string) (map[string]string, string) { return rendVia(name, false) }
+	for _, nm := range []string{"fbase", "fdoc"} { // one baseline per entry point (they are different functions of a document template)
 		baseline[nm], _ = rend(nm)
+		baseline[nm+"/via"], _ = rendVia(nm, true)
 	}
 	childContent := `{{extends "fbase"}}{{#block "main"}}CHILD {{name}}{{/block}}`
 	// plan the operations of every client beforehand (deterministic given the case)
 	type planned struct {
 		in      cacheIn
 		content string
+		via     bool // render through RenderTemplateToDocument instead of RenderToDocument
 	}
 	plans := make([][]planned, nClients)
 	ver := 0
@@ -524,25 +621,28 @@ func c17Concurrent(c *core.Ctx, r *rng.R) *core.Result {
 				ver++
 				plans[ci] = append(plans[ci], planned{in: cacheIn{"load", nm, ver}, content: fmt.Sprintf("VER%d {{x}} %s", ver, c17Body(r, "b"))})
 			case x < 8:
-				plans[ci] = append(plans[ci], planned{in: cacheIn{Op: "render", Name: nm}})
+				plans[ci] = append(plans[ci], planned{in: cacheIn{Op: "render", Name: nm}, via: r.Bool()})
 			case x < 9:
 				plans[ci] = append(plans[ci], planned{in: cacheIn{Op: "remove", Name: nm}})
 			default:
 				if r.Chance(1, 3) {
-					plans[ci] = append(plans[ci], planned{in: cacheIn{Op: "family"}})
+					plans[ci] = append(plans[ci], planned{in: cacheIn{Op: "family"}, via: r.Bool()})
 				} else {
-					plans[ci] = append(plans[ci], planned{in: cacheIn{Op: "render", Name: nm}})
+					plans[ci] = append(plans[ci], planned{in: cacheIn{Op: "render", Name: nm}, via: r.Bool()})
 				}
 			}
 		}
 	}
 	// expected render result of every version, computed alone in a private engine
-	alone := map[int]map[string]string{}
+	alone, aloneVia := map[int]map[string]string{}, map[int]map[string]string{}
 	for _, pl := range plans {
 		for _, p := range pl {
 			if p.in.Op == "load" {
 				e2 := document.NewTemplateEngine()
 				e2.LoadTemplate("x", p.content)
+				if d, err := e2.RenderTemplateToDocument("x", data); err == nil && d != nil {
+					aloneVia[p.in.Ver], _ = renderOutcome(d)
+				}
 				if d, err := e2.RenderToDocument("x", data); err == nil && d != nil {
 					alone[p.in.Ver], _ = renderOutcome(d)
 				}
@@ -567,10 +667,15 @@ func c17Concurrent(c *core.Ctx, r *rng.R) *core.Result {
 				if p.in.Op == "family" {
 					// load a child of the shared base and render base, child and the document template
 					core.Catch(func() { eng.LoadTemplate(fmt.Sprintf("fchild%d", ci), childContent) })
+					atomic.AddInt64(&progress, 1)
 					for _, nm := range []string{"fbase", "fdoc"} {
-						got, _ := rend(nm)
-						if got != nil && baseline[nm] != nil {
-							if part, d := canonDiff(baseline[nm], got); part != "" {
+						got, _ := rendVia(nm, p.via)
+						bl := baseline[nm]
+						if p.via {
+							bl = baseline[nm+"/via"]
+						}
+						if got != nil && bl != nil {
+							if part, d := canonDiff(bl, got); part != "" {
 								mu.Lock()
 								diffs = append(diffs, diffRec{"concurrent/" + nm + "-renders-differently-beside-other-calls", fmt.Sprintf("part %s: %s", part, d)})
 								mu.Unlock()
@@ -584,19 +689,26 @@ func c17Concurrent(c *core.Ctx, r *rng.R) *core.Result {
 				switch p.in.Op {
 				case "load":
 					core.Catch(func() { eng.LoadTemplate(p.in.Name, p.content) })
+					atomic.AddInt64(&progress, 1)
 				case "remove":
 					core.Catch(func() { eng.RemoveTemplate(p.in.Name) })
+					atomic.AddInt64(&progress, 1)
 				case "clear":
 					core.Catch(func() { eng.ClearCache() })
+					atomic.AddInt64(&progress, 1)
 				case "render":
-					got, msg := rend(p.in.Name)
+					got, msg := rendVia(p.in.Name, p.via)
 					seen := -1
 					if got != nil {
 						seen = -2
 						if m := verRe.FindStringSubmatch(got["word/document.xml"]); m != nil {
 							fmt.Sscan(m[1], &seen)
 						}
-						if exp := alone[seen]; exp != nil {
+						exp := alone[seen]
+						if p.via {
+							exp = aloneVia[seen]
+						}
+						if exp != nil {
 							if part, d := canonDiff(exp, got); part != "" {
 								mu.Lock()
 								diffs = append(diffs, diffRec{"concurrent/render-differs-from-alone-baseline", fmt.Sprintf("version %d part %s: %s", seen, part, d)})
@@ -619,8 +731,78 @@ func c17Concurrent(c *core.Ctx, r *rng.R) *core.Result {
 		}(ci)
 	}
 	close(start)
-	wg.Wait()
+	// progress monitor: the clients normally finish within milliseconds. If no call on the engine returns for a long stretch the
+	// goroutine states decide: every client parked in a lock acquisition inside the engine, none runnable => nobody is left to
+	// release the lock (deadlock, a finding); anything else => slow machine (inconclusive)
+	done := make(chan struct{})
+	go func() { wg.Wait(); close(done) }()
+	last, lastChange := int64(-1), time.Now()
+	stuck := false
+wait:
+	for {
+		select {
+		case <-done:
+			break wait
+		case <-time.After(250 * time.Millisecond):
+		}
+		if now := atomic.LoadInt64(&progress); now != last {
+			last, lastChange = now, time.Now()
+			continue
+		}
+		if time.Since(lastChange) < time.Duration(tierN(c.Tier, 20, 40))*time.Second {
+			continue
+		}
+		buf := make([]byte, 4<<20)
+		buf = buf[:runtime.Stack(buf, true)]
+		parked, others := 0, 0
+		var where []string
+		for _, g := range strings.Split(string(buf), "\n\n") {
+			if !strings.Contains(g, "props.c17Concurrent.func") || strings.Contains(g, "sync.(*WaitGroup).Wait") || strings.Contains(g, "runtime.Stack") {
+				continue
+			}
+			head := g
+			if i := strings.Index(g, "\n"); i > 0 {
+				head = g[:i]
+			}
+			if (strings.Contains(head, "[sync.RWMutex") || strings.Contains(head, "[sync.Mutex") || strings.Contains(head, "[semacquire")) && strings.Contains(g, "(*TemplateEngine)") {
+				parked++
+				for _, ln := range strings.Split(g, "\n") {
+					if strings.Contains(ln, "wordZero/pkg/document.(*TemplateEngine)") {
+						fn := strings.TrimPrefix(ln[strings.Index(ln, "(*TemplateEngine)."):], "(*TemplateEngine).")
+						if i := strings.Index(fn, "("); i > 0 {
+							fn = fn[:i]
+						}
+						where = append(where, fn)
+						break
+					}
+				}
+			} else {
+				others++
+			}
+		}
+		if parked > 0 && others == 0 {
+			sort.Strings(where)
+			uniq := where[:0]
+			for i, w := range where {
+				if i == 0 || w != where[i-1] {
+					uniq = append(uniq, w)
+				}
+			}
+			res.Add("concurrent/calls-never-return/all-clients-parked-on-the-engine-lock/"+strings.Join(uniq, "+"), fmt.Sprintf("no call on the engine returned for %v: %d client goroutines are parked acquiring the engine's lock, none is runnable (deadlock)", time.Since(lastChange).Round(time.Second), parked), string(buf))
+		} else {
+			res.Inconcl = fmt.Sprintf("no progress for %v but %d client goroutines are not parked on the engine lock", time.Since(lastChange).Round(time.Second), others)
+		}
+		stuck = true
+		break
+	}
 	document.VerifSetCallback(nil)
+	if stuck {
+		// the parked goroutines stay behind (they own nothing but this case's engine); nothing recorded by them is used
+		res.Nontrivial = true
+		res.Sig = fmt.Sprintf("conc|stuck|%d", c.Case)
+		res.Sample = map[string]interface{}{"case": c.Case, "mode": "concurrent", "clients": nClients, "stuck": true}
+		return res
+	}
 	for _, d := range diffs {
 		res.Add(d.key, d.msg)
 	}
